@@ -310,6 +310,9 @@ func LoadState(ctx context.Context, repo gitstore.Storer, requestedEntry rsl.Ref
 	if err != nil {
 		return nil, err
 	}
+	if err := initialPolicyState.verifyMetadata(ctx); err != nil {
+		return nil, fmt.Errorf("initial policy state has invalidly signed metadata: %w", err)
+	}
 	if len(options.InitialRootPrincipals) == 0 {
 		slog.Debug(fmt.Sprintf("Trusting root of trust for initial policy '%s'...", firstPolicyEntry.GetID().String()))
 	} else {
@@ -343,6 +346,9 @@ func LoadState(ctx context.Context, repo gitstore.Storer, requestedEntry rsl.Ref
 		slog.Debug(fmt.Sprintf("Verifying root of trust for policy '%s'...", entry.GetID().String()))
 		if err := verifiedState.VerifyNewState(ctx, underTestState); err != nil {
 			return nil, fmt.Errorf("unable to verify roots of trust for policy states: %w", err)
+		}
+		if err := underTestState.verifyMetadata(ctx); err != nil {
+			return nil, fmt.Errorf("policy state '%s' has invalidly signed metadata: %w", entry.GetID().String(), err)
 		}
 
 		verifiedState = underTestState
@@ -555,6 +561,18 @@ func (s *State) GetAllPrincipals() map[string]tuf.Principal {
 // top level Targets role and all reachable delegated Targets roles. Any
 // unreachable role returns an error.
 func (s *State) Verify(ctx context.Context) error {
+	if err := s.verifyMetadata(ctx); err != nil {
+		return err
+	}
+
+	return s.verifyControllerMetadata(ctx)
+}
+
+// verifyMetadata verifies the signatures of the state's own metadata: the
+// root role against its own root principals, the primary rule file against the
+// root's rule file role, and every delegated rule file against the rule that
+// delegates to it. An unreachable rule file returns an error.
+func (s *State) verifyMetadata(ctx context.Context) error {
 	rootVerifier, err := s.getRootVerifier()
 	if err != nil {
 		return err
@@ -655,6 +673,12 @@ func (s *State) Verify(ctx context.Context) error {
 		}
 	}
 
+	return nil
+}
+
+// verifyControllerMetadata verifies the root of trust of the controller
+// repositories' metadata carried in the state.
+func (s *State) verifyControllerMetadata(ctx context.Context) error {
 	if s.loadedEntry == nil {
 		slog.Debug("Policy not loaded from RSL, skipping verification of controller metadata...")
 		return nil
@@ -662,6 +686,11 @@ func (s *State) Verify(ctx context.Context) error {
 
 	// Check controller root metadata
 	if len(s.ControllerMetadata) != 0 {
+		rootMetadata, err := s.GetRootMetadata(false)
+		if err != nil {
+			return err
+		}
+
 		controllerRepositories := rootMetadata.GetControllerRepositories()
 		for _, controllerRepositoryDetail := range controllerRepositories {
 			controllerName := controllerRepositoryDetail.GetName()
